@@ -846,6 +846,16 @@ func registerIntrinsics(m *Machine) {
 	}
 	I["(*sync.Pool).Get"] = func(m *Machine, fr *Frame, a []Value, call ssa.Instruction, d bool) (Value, int) {
 		p := a[0].(Ptr).L
+		// an object put back earlier is handed out again (what sync.Pool does in a single goroutine without GC)
+		if st := m.poolStore[p]; len(st) > 0 {
+			obj := st[len(st)-1]
+			m.poolStore[p] = st[:len(st)-1]
+			m.trail = append(m.trail, func() { m.poolStore[p] = append(m.poolStore[p], obj) })
+			if m.poolHavoc {
+				m.havocValue(obj)
+			}
+			return done(obj)
+		}
 		st := p.typ.Underlying().(*types.Struct)
 		for i := 0; i < st.NumFields(); i++ {
 			if st.Field(i).Name() == "New" {
@@ -863,7 +873,14 @@ func registerIntrinsics(m *Machine) {
 		}
 		panic("sync.Pool.New not found")
 	}
-	I["(*sync.Pool).Put"] = func(m *Machine, fr *Frame, a []Value, call ssa.Instruction, d bool) (Value, int) { return done(nil) }
+	I["(*sync.Pool).Put"] = func(m *Machine, fr *Frame, a []Value, call ssa.Instruction, d bool) (Value, int) {
+		p := a[0].(Ptr).L
+		if iv, ok := a[1].(Iface); ok && iv.T != nil {
+			m.poolStore[p] = append(m.poolStore[p], a[1])
+			m.trail = append(m.trail, func() { m.poolStore[p] = m.poolStore[p][:len(m.poolStore[p])-1] })
+		}
+		return done(nil)
+	}
 	for _, n := range []string{"Lock", "Unlock", "RLock", "RUnlock"} {
 		I["(*sync.RWMutex)."+n] = func(m *Machine, fr *Frame, a []Value, call ssa.Instruction, d bool) (Value, int) { return done(nil) }
 		I["(*sync.Mutex)."+n] = func(m *Machine, fr *Frame, a []Value, call ssa.Instruction, d bool) (Value, int) { return done(nil) }
